@@ -4,7 +4,7 @@ from gen_structure import *  # noqa
 PROP_FILES = ["Structure/Properties_C07.v"]
 MANIFEST = dict(
     technique="Coq proof (case analysis of the decision ladders against a declarative clause list; list lemmas for sibling and group rules) on a Gallina model of the scanner's placement checks and StructureChecker::check_siblings, glob/regex answers entering as oracle columns; tied by differential execution on real trees of names through the library pipeline and the real CLI",
-    text="Theorems C07_file_at_most_once, C07_file_exact (the reported violation of a file is exactly forbidden_spec, the documented ladder), C07_lists_combine_by_or, C07_naming_only_if_permitted, C07_directed_sibling, C07_group, C07_rule_consulted_is_explains hold without bounds. The tie: generated trees of names (extensions, dotfiles, multi-dot, non-ASCII) x global and per-scope allow/deny lists, naming regexes, directed and group sibling rules, overlapping scopes; `check --format json` (violation_type, triggering_rule) and the library pipeline compared with the extracted model and with the Coq spec; the consulted rule compared with the one `explain` names.",
+    text="Theorems C07_file_at_most_once, C07_file_exact / C07_dir_exact (the reported violation of an entry is exactly forbidden_spec, the documented ladder), C07_scan_exact (a whole scan of a tree, any processing order, reports exactly the specification - no side condition since every site matches the normalised path), C07_lists_combine_by_or, C07_naming_only_if_permitted, C07_directed_sibling, C07_group, C07_rule_consulted_is_explains hold without bounds. The tie: generated trees of names (extensions, dotfiles, multi-dot, non-ASCII) x global and per-scope allow/deny lists, naming regexes, directed and group sibling rules, overlapping scopes; `check --format json` (violation_type, triggering_rule) and the library pipeline compared with the extracted model and with the Coq spec; the consulted rule compared with the one `explain` names.",
     note="Trusted: Coq kernel, extraction, harness sgv-structure (oracle columns computed with the real globset / regex objects of the real configuration), python generators. Not modelled: regex and glob semantics, non-UTF-8 file names, directories are allowed to collect several violations (only files are at-most-once).",
     ref="5 (C07)")
 
@@ -25,8 +25,7 @@ def run(ctx):
     ctx.cov["trusted_base"] = TRUSTED_COMMON + [
         "oracle columns: every glob / regex answer (per list, per name and per path) is computed by sgv-structure with the real compiled objects and handed to the model as data",
         "std::path::Path::{extension,file_stem} are mirrored in Gallina (Structure/Names.v) and compared with std on every name of every case"]
-    ctx.assumptions = ["file names are valid UTF-8", "a single scan root spelled as a plain relative directory name (D7 is property C08's)",
-                       "placement-site and limit-site scope matching agree for the canonical spelling (hypothesis of C07_rule_consulted_is_explains)"]
+    ctx.assumptions = ["file names are valid UTF-8", "a single relative scan root, spelled `t` or `./t` (absolute roots: property C08); that the placement site, the limit/explain site and the sibling site give the same scope answers is CHECKED on every directory of every case (scope-sites), and is what lets the model carry one scope column"]
 
 
 def replay(ctx, path):
